@@ -140,7 +140,7 @@ def judge_history(chk, c, r, st):
     if h["sensitive"] and c.get("fts") and c["fts"][0] in (2, 3, 4):
         st["first_row_uses_row_above_after_dirtying_failure"] += sum(v for k, v in h["by_kind"].items() if k in DIRTYING)
     for d in h["diffs"]:
-        st["in_rayon_worker"] += d["thread"] == "rayon worker"
+        st["differing_redecodes_in_rayon_worker"] += d["thread"] == "rayon worker"
         if d["dc"]["ok"] and d["dc"]["data"] == c["plain"]:
             continue        # the disturbed answer is the right one: the fresh one is wrong and already reported
         chk.violation("C09:history." + d["kind"],
@@ -204,7 +204,7 @@ def codec_phase(chk, tier, w):
         raise vlib.ToolError("replay lost cases")
     passed = {}
     hist_stats = {"rejudged_after_disturbance": 0, "by_kind": {}, "first_row_uses_row_above_after_dirtying_failure": 0,
-                  "in_rayon_worker": 0}
+                  "differing_redecodes_in_rayon_worker": 0}
     for c, r_ in zip(cases, results):
         nontrivial = (c["k"] == "row") or len(c["plain"]) > 0
         chk.case(case_key(c) if nontrivial else None)
